@@ -169,24 +169,34 @@ Definition prune (rm_no_e : bool) (l : list A) : res A :=
   bind (if rm_no_e then remove_no_energy l else Ok l)
        (fun l1 => bind (prune_on_energy l1) prune_on_rmsd).
 
-(* species.py:1388-1474 find_lowest_energy_conformer, the selection part (energies as given):
-     self.conformers.prune(remove_no_energy=True)
-     if not allow_connectivity_changes: self.conformers.prune_diff_graph(self.graph)
-     self._set_lowest_energy_conformer()       (RuntimeError if lowest_energy is None) *)
+(* outcome of Species.find_lowest_energy_conformer (defined after the section: `select`) *)
 Inductive sel : Type :=
 | Selected (c : A)
 | NoSuitable        (* RuntimeError: conformers present but none has an energy *)
 | Raised.           (* NoConformers: from remove_no_energy, or from @requires_conformers (utils.py:395-410)
                        on _set_lowest_energy_conformer when no conformer is left *)
-Definition select (allow : bool) (l : list A) : sel * res A :=
-  let r := bind (prune true l) (fun l2 => if allow then Ok l2 else prune_diff_graph l2) in
-  match r with
-  | Ok [] => (Raised, r)
-  | Ok l3 => (match lowest_energy l3 with Some c => Selected c | None => NoSuitable end, r)
-  | _ => (Raised, r)
-  end.
 
 End Conformers.
+
+(* species.py:1456-1520 find_lowest_energy_conformer, the selection part.  The ORDER of the calls is
+   part of the model:
+     :1499  self.conformers.optimise(method=lmethod)           -> energies en_l, geometries giving RMSD d
+     :1500  self.conformers.prune(remove_no_energy=True)       (default e_tol / rmsd_tol / n_sigma)
+     :1502-1512  if hmethod is not None: single points on the same geometries (Config.hmethod_sp_conformers)
+                 or a full re-optimisation                      -> energies en_h, possibly NEW geometries
+     :1514-1516  if not allow_connectivity_changes: self.conformers.prune_diff_graph(self.graph)
+                 — AFTER the high-level stage: iso_final judges the FINAL geometry of each conformer
+     :1518  self._set_lowest_energy_conformer()                 minimum of en_h over what is left
+   Without hmethod en_h = en_l and the final geometry is the low-level one. *)
+Definition select (A : Type) (en_l en_h : A -> option Qc) (iso_final : A -> bool) (e_tol n_sigma : Qc)
+                  (d : A -> A -> Qc) (r_tol : Qc) (allow : bool) (l : list A) : sel A * res A :=
+  let r := bind (prune A en_l e_tol n_sigma d r_tol true l)
+                (fun l2 => if allow then Ok l2 else prune_diff_graph A iso_final l2) in
+  match r with
+  | Ok [] => (Raised A, r)
+  | Ok l3 => (match lowest_energy A en_h l3 with Some c => Selected A c | None => NoSuitable A end, r)
+  | _ => (Raised A, r)
+  end.
 
 (* ------------------------------------------------------------------------------------------ *)
 (* complex.py:93-137  Complex.__init__ ; :172-191 atom_indexes ; mol_graphs.py:300-305 union     *)
